@@ -367,6 +367,11 @@ func ReadFromTeletext(r io.Reader, o TeletextOptions) (s *Subtitles, err error) 
 			return
 		}
 
+		// The demuxer returns neither data nor error when the last packets of the stream don't make up any data
+		if d == nil {
+			break
+		}
+
 		// We only parse PES data
 		if d.PES == nil {
 			continue
@@ -435,6 +440,12 @@ func teletextPID(dmx *astits.Demuxer, o TeletextOptions) (pid uint16, err error)
 				return
 			}
 			err = fmt.Errorf("astisub: fetching next data failed: %w", err)
+			return
+		}
+
+		// The demuxer returns neither data nor error when the last packets of the stream don't make up any data
+		if d == nil {
+			err = ErrNoValidTeletextPID
 			return
 		}
 
